@@ -46,7 +46,11 @@ RULE = (
     "in the loop iteration in which a timer of the same instant runs); "
     "0..3 generated extra SearchRequestRemovedEvent listeners (plain function, coroutine without a wait, coroutine "
     "waiting 1..6 loop iterations or one grid step) registered between the recorder and a plain last listener; "
-    "change of request_timeout; advance(n*0.5 s); advance to -1/0/+1 grid steps around the deadline of a live "
+    "change of request_timeout (and optionally wishlist_request_timeout / store_results) at run time, applied to "
+    "client.settings in place, by assigning a new searches.send section or by assigning a new searches section "
+    "(model_copy with the other values preserved) - the initial values are applied in one of these three ways after "
+    "the client was created; a request's deadline uses the values client.settings holds when the request is made, "
+    "running requests keep theirs, store_results is the value in force when the reply arrives; advance(n*0.5 s); advance to -1/0/+1 grid steps around the deadline of a live "
     "request; step(n loop iterations) so that several operations share one virtual instant. Oracle (reference "
     "model ticket -> request object, creation time, deadline = creation + timeout in force, manual removal time): "
     "every reply produces exactly one SearchResultEvent iff a request with its ticket is live at arrival, carrying "
@@ -137,13 +141,18 @@ _race_op = st.fixed_dictionaries({
 _adv_op = st.fixed_dictionaries({'op': st.just('adv'), 'n': st.sampled_from([1, 1, 1, 2, 2, 3, 4, 5, 6])})
 _advto_op = st.fixed_dictionaries({'op': st.just('adv_to'), 'i': st.integers(0, 5), 'off': st.sampled_from([-1, 0, 0, 1])})
 _step_op = st.fixed_dictionaries({'op': st.just('step'), 'n': st.integers(1, 6)})
-_settimeout_op = st.fixed_dictionaries({'op': st.just('set_timeout'), 'v': st.sampled_from([0, 1, 2, 3])})
+# change of the searches.send settings at run time: in place, by replacing the `send` section, or by replacing the
+# whole `searches` section; v = request_timeout, wl / store = None keeps the current value
+_settimeout_op = st.fixed_dictionaries({
+    'op': st.just('set_timeout'), 'v': st.sampled_from([0, 1, 2, 3]),
+    'how': st.sampled_from(['inplace', 'send', 'searches']),
+    'wl': st.sampled_from([None, None, None, -1, 0, 1, 2, 3]), 'store': st.sampled_from([None, None, True, False])})
 _wish_op = st.fixed_dictionaries({'op': st.just('wish'), 'interval': st.sampled_from([1, 1, 2, 3]),
                                   'when': st.sampled_from(['now', 'next'])})
 
 _search_ops = st.lists(
     st.one_of(_search_op, _search_op, _search_op, _remove_op, _remove_op, _reply_op, _reply_op, _reply_op,
-              _race_op, _race_op, _adv_op, _adv_op, _advto_op, _advto_op, _step_op, _settimeout_op, _wish_op),
+              _race_op, _race_op, _adv_op, _adv_op, _advto_op, _advto_op, _step_op, _settimeout_op, _settimeout_op, _wish_op),
     min_size=0, max_size=19).flatmap(lambda ops: _search_op.map(lambda first: [first] + ops))
 
 search_strategy = st.fixed_dictionaries({
@@ -152,6 +161,7 @@ search_strategy = st.fixed_dictionaries({
     'wl_timeout': st.sampled_from([-1, -1, -1, 0, 1, 2, 3]),
     'store': st.booleans(),
     'cmds': st.sampled_from([False, False, False, True]),
+    'init_how': st.sampled_from(['inplace', 'send', 'searches']),   # how the initial values are applied after start
     'wishlist': st.lists(st.tuples(st.integers(0, 3), st.sampled_from([True, True, False])).map(list), max_size=3),
     # further SearchRequestRemovedEvent listeners between the recorder (first) and a plain last listener
     'rm_listeners': st.lists(st.tuples(st.sampled_from(['sync', 'async', 'steps', 'steps', 'tick']),
@@ -282,7 +292,10 @@ def _sanitise_search(case):
         elif name == 'step':
             ops.append({'op': 'step', 'n': _int(o.get('n'), 1, 6, 1)})
         elif name == 'set_timeout':
-            ops.append({'op': 'set_timeout', 'v': _int(o.get('v'), 0, 3, 0)})
+            ops.append({'op': 'set_timeout', 'v': _int(o.get('v'), 0, 3, 0),
+                        'how': o.get('how') if o.get('how') in ('inplace', 'send', 'searches') else 'inplace',
+                        'wl': None if o.get('wl') is None else _int(o.get('wl'), -1, 3, -1),
+                        'store': o.get('store') if isinstance(o.get('store'), bool) else None})
         elif name == 'wish' and not wished:
             wished = True
             ops.append({'op': 'wish', 'interval': _int(o.get('interval'), 1, 3, 1),
@@ -296,6 +309,7 @@ def _sanitise_search(case):
         'timeout': _int(case.get('timeout'), 0, 3, 0),
         'wl_timeout': _int(case.get('wl_timeout'), -1, 3, -1),
         'store': bool(case.get('store', True)),
+        'init_how': case.get('init_how') if case.get('init_how') in ('inplace', 'send', 'searches') else 'inplace',
         'wishlist': wishlist,
         'rm_listeners': [(it[0], _int(it[1], 1, 6, 1))
                          for it in (case.get('rm_listeners') if isinstance(case.get('rm_listeners'), list) else [])[:3]
@@ -351,7 +365,7 @@ def _run_search(case) -> CaseResult:
     from aioslsk.events import SearchRequestRemovedEvent, SearchRequestSentEvent, SearchResultEvent
     from aioslsk.protocol import messages as M
     from aioslsk.search.model import SearchType
-    from aioslsk.settings import WishlistSettingEntry
+    from aioslsk.settings import SearchSendSettings, WishlistSettingEntry
 
     reqs: list[_Req] = []
     by_obj: dict[int, _Req] = {}
@@ -366,6 +380,9 @@ def _run_search(case) -> CaseResult:
     checkpoints = []     # (time, {ticket: id(obj)})
     notes = {'dup': None, 'ties': set(), 'near': False}
     violations = []      # (kind, detail, ticket, time) found while driving
+    wl_changes = []      # instants at which the wishlist timeout was changed
+    store_changes = []   # (instant, new value) of searches.send.store_results
+    uncertain = {}       # ticket -> creation instant of wishlist requests whose timeout is ambiguous
     rm_log = []          # (listener index, 'entered'|'finished', id(request), time) of the extra removal listeners
 
     def add_req(src, obj, created, timeout, now, registered_before=()):
@@ -386,9 +403,6 @@ def _run_search(case) -> CaseResult:
     async def main(world: simworld.World):
         loop = world.loop
         settings = simworld.mk_settings('me')
-        settings.searches.send.request_timeout = cfg['timeout']
-        settings.searches.send.wishlist_request_timeout = cfg['wl_timeout']
-        settings.searches.send.store_results = cfg['store']
         for q, enabled in cfg['wishlist']:
             settings.searches.wishlist.append(WishlistSettingEntry(query=q, enabled=enabled))
         bob = world.add_peer('bob', latency=LAT)
@@ -403,12 +417,15 @@ def _run_search(case) -> CaseResult:
                 if req.search_type != SearchType.WISHLIST and hook['op'] is not None:
                     hook['req'] = req
                 if req.search_type == SearchType.WISHLIST and id(req) not in by_obj:
-                    if cfg['wl_timeout'] >= 0:
-                        timeout = cfg['wl_timeout'] or None
+                    if state['wl_timeout'] >= 0:
+                        timeout = state['wl_timeout'] or None
                     else:
                         known = [iv for at, iv in wish_arrivals if at <= now + EPS]
                         timeout = known[-1] if known else None
-                    add_req('wish', req, now, timeout, now)
+                    r = add_req('wish', req, now, timeout, now)
+                    if any(abs(now - at) <= EPS for at in wl_changes):
+                        # the wishlist timeout was changed on the instant of this round: either value may apply
+                        uncertain[r.ticket] = now
 
             def on_sent_plain(self, event):
                 if hook['op'] is not None and hook['op']['hook'] == 'sync' \
@@ -505,7 +522,26 @@ def _run_search(case) -> CaseResult:
         client.events.register(SearchResultEvent, listener.on_result)
 
         await _until(loop, T0)
-        state = {'tick': 0, 'timeout': cfg['timeout'], 'reply_id': 0}
+        state = {'tick': 0, 'timeout': cfg['timeout'], 'wl_timeout': cfg['wl_timeout'], 'store': cfg['store'],
+                 'reply_id': 0}
+
+        def apply_settings(how):
+            """Make client.settings.searches.send carry the model's current values: in place, by replacing the
+            `send` section, or by replacing the whole `searches` section (other values preserved)."""
+            cs = client.settings
+            if how == 'inplace':
+                cs.searches.send.request_timeout = state['timeout']
+                cs.searches.send.wishlist_request_timeout = state['wl_timeout']
+                cs.searches.send.store_results = state['store']
+                return
+            send = SearchSendSettings(request_timeout=state['timeout'], store_results=state['store'],
+                                      wishlist_request_timeout=state['wl_timeout'])
+            if how == 'send':
+                cs.searches.send = send
+            else:
+                cs.searches = cs.searches.model_copy(update={'send': send})
+
+        apply_settings(cfg['init_how'])     # after the client (and its SearchManager) has been created
 
         def now_t():
             return T0 + state['tick'] * TICK
@@ -743,8 +779,15 @@ def _run_search(case) -> CaseResult:
             elif name == 'step':
                 await simloop.step(op['n'])
             elif name == 'set_timeout':
-                settings.searches.send.request_timeout = op['v']
                 state['timeout'] = op['v']
+                if op['wl'] is not None and op['wl'] != state['wl_timeout']:
+                    state['wl_timeout'] = op['wl']
+                    wl_changes.append(T)
+                if op['store'] is not None and op['store'] != state['store']:
+                    state['store'] = op['store']
+                    store_changes.append((T, op['store']))
+                apply_settings(op['how'])
+                notes['settings:' + op['how']] = True
             elif name == 'wish':
                 msg = M.WishlistInterval.Response(op['interval'])
                 if op['when'] == 'now':
@@ -790,7 +833,17 @@ def _run_search(case) -> CaseResult:
         removed_events.setdefault(r.n, []).append(t)
 
     zombies = set()      # requests whose removal did not happen: later observations about them are consequences
-    tainted = {}         # ticket -> instant from which observations about that ticket are consequences of a violation
+    def store_at(t):
+        """store_results in force at t; None on the instant of a change."""
+        value = cfg['store']
+        for at, new in store_changes:
+            if abs(t - at) <= EPS:
+                return None
+            if at < t:
+                value = new
+        return value
+
+    tainted = dict(uncertain)         # ticket -> instant from which observations about that ticket are consequences of a violation
 
     def taint(r):
         tainted[r.ticket] = min(tainted.get(r.ticket, r.deadline), r.deadline)
@@ -895,6 +948,7 @@ def _run_search(case) -> CaseResult:
                                 f'SearchRequestRemovedEvent (seq {earlier[0]})')
 
     expected_stored: dict[int, int] = {}
+    unsure_stored = set()
     for rp in replies:
         A = rp['arrival']
         if A > end - EPS:
@@ -945,17 +999,25 @@ def _run_search(case) -> CaseResult:
         if abs(t - A) > EPS:
             res.violate('C18/result-event-at-wrong-time', f'reply {rp}: event at {t}')
             continue
-        expected_stored[target.n] = expected_stored.get(target.n, 0) + 1
-        if cfg['store'] and not any(s is ev.result for s in stored.get(id(target.obj), [])):
-            res.violate('C18/stored-results-mismatch', f'reply {rp}: result reported but not in request.results')
+        keep = store_at(t)
+        if keep is None:
+            unsure_stored.add(target.n)
+            continue
+        is_stored = any(s is ev.result for s in stored.get(id(target.obj), []))
+        if keep:
+            expected_stored[target.n] = expected_stored.get(target.n, 0) + 1
+        if keep != is_stored:
+            res.violate('C18/stored-results-mismatch',
+                        f'reply {rp}: result reported at {t} with store_results={keep} in force, '
+                        f'{"not " if keep else ""}in request.results')
     for r in reqs:
         have = len(stored.get(id(r.obj), []))
-        want = expected_stored.get(r.n, 0) if cfg['store'] else 0
-        if have != want and r.ticket not in tainted:
+        want = expected_stored.get(r.n, 0)
+        if have != want and r.ticket not in tainted and r.n not in unsure_stored:
             late = [rp for rp in replies if rp['ticket'] == r.ticket and rp['arrival'] > end - EPS]
             if not late:
                 res.violate('C18/stored-results-mismatch',
-                            f'{r.describe()}: {have} stored results, {want} reported (store_results={cfg["store"]})')
+                            f'{r.describe()}: {have} stored results, {want} reported while store_results was on')
 
     # ---- SearchManager.requests at the half-grid checkpoints -------------------
     for t, table in checkpoints:
@@ -1008,6 +1070,9 @@ def _run_search(case) -> CaseResult:
         res.label('near-deadline')
     if wish_arrivals:
         res.label('wishlist-rounds')
+    for how in ('inplace', 'send', 'searches'):
+        if notes.get('settings:' + how):
+            res.label('settings-changed:' + how)
     if notes.get('hook'):
         res.label('remove-during-sent-event')
     for k in ('failed:raised', 'failed:cancelled'):
